@@ -1,9 +1,10 @@
 (* run/<Cxx>: every recorded run replayed against the model and judged by the monitors. *)
 From Coq Require Import String List Bool Arith ZArith.
-From Verif Require Import Base.ListX Base.Json Base.Free Pub.Events Pub.Replay Pub.Monitors Pub.SideEffect Pub.BaseActor Pub.Util Pub.Value Pub.DeliverySpec Pub.CreateSpec.
+From Verif Require Import Base.ListX Base.Json Base.Free Pub.Events Pub.Replay Pub.Monitors Pub.SideEffect Pub.BaseActor Pub.Util Pub.Value Pub.EffectSpec Pub.Fed Pub.Soc Base.Time Pub.DeliverySpec Pub.CreateSpec.
 Require Import Run.observed.
 Import ListNotations.
 Open Scope string_scope.
+Open Scope nat_scope.
 
 Section FF.
   Variable St : Type.
@@ -193,6 +194,97 @@ Definition history_bad := Eval vm_compute in
 Definition order_stats := Eval vm_compute in
   (length (filter (fun u => existsb (fun p => match fst p with EDb op _ => String.eqb op "SetOutbox" | _ => false end) (u_trace u)) observed),
    length histories, fold_left (fun n h => match h with (_, ids, _) => n + length ids end) histories 0).
+(* C16 on a recorded outbox run: every Database.Update the real code issued against the effect functions *)
+Record wstate := { w_owns : option bool; w_get : option json; w_liked : option json; w_now : Z; w_idx : nat; w_updates : nat; w_owned : nat }.
+Definition is_mod (op : string) : bool := String.eqb op "Create" || String.eqb op "Update" || String.eqb op "Delete" || String.eqb op "SetOutbox" || String.eqb op "SetInbox".
+(* returns the first complaint, or the final state *)
+Fixpoint eff_walk (ty : string) (a raw : json) (st : wstate) (tr : list (ev * ans)) : string + wstate :=
+  match tr with
+  | [] => inr st
+  | (e, x) :: r =>
+      match e with
+      | ENow => eff_walk ty a raw {| w_owns := w_owns st; w_get := w_get st; w_liked := w_liked st; w_now := match x with AZ z => z | _ => 0%Z end; w_idx := w_idx st; w_updates := w_updates st; w_owned := w_owned st |} r
+      | EDb op args =>
+          if String.eqb op "Owns" then
+            let b := match x with ABool b => Some b | _ => None end in
+            eff_walk ty a raw {| w_owns := b; w_get := None; w_liked := w_liked st; w_now := w_now st; w_idx := w_idx st; w_updates := w_updates st;
+                                 w_owned := w_owned st + match b with Some true => 1 | _ => 0 end |} r
+          else if String.eqb op "Get" then
+            eff_walk ty a raw {| w_owns := w_owns st; w_get := match x with AJson j => Some j | _ => None end; w_liked := w_liked st; w_now := w_now st; w_idx := w_idx st; w_updates := w_updates st; w_owned := w_owned st |} r
+          else if String.eqb op "Liked" then
+            eff_walk ty a raw {| w_owns := w_owns st; w_get := w_get st; w_liked := match x with AJson j => Some j | _ => None end; w_now := w_now st; w_idx := w_idx st; w_updates := w_updates st; w_owned := w_owned st |} r
+          else if String.eqb op "Update" then
+            match args with
+            | [v] =>
+                let want : option json :=
+                  if String.eqb ty "Update" then
+                    match w_get st, e_type "object" (nth (w_idx st) (elems0 "object" a) JNull) with
+                    | Some t, Some supplied =>
+                        match update_spec t supplied (match jget "object" raw with Some (JArr l) => nth (w_idx st) l JNull | Some y => if Nat.eqb (w_idx st) 0 then y else JNull | None => JNull end) with
+                        | Ok n => Some n | _ => None end
+                    | _, _ => None end
+                  else if String.eqb ty "Delete" then
+                    match w_get st, ids_of "object" a with
+                    | Some t, Ok ids => Some (to_tombstone t (nth (w_idx st) ids "") (rfc3339_utc (w_now st)))
+                    | _, _ => None end
+                  else if String.eqb ty "Add" || String.eqb ty "Remove" then
+                    match w_owns st, w_get st, ids_of "object" a with
+                    | Some true, Some tp, Ok ids => eff_expected (if String.eqb ty "Add" then KAdd ids else KRemove ids) tp
+                    | _, _, _ => None end
+                  else if String.eqb ty "Like" then
+                    match w_liked st, to_ids "object" (elems0 "object" a) with
+                    | Some l, Ok ids => Some (like_spec ids l)
+                    | _, _ => None end
+                  else None in
+                match want with
+                | Some w => if jeqb v (canon w) then
+                              eff_walk ty a raw {| w_owns := None; w_get := None; w_liked := w_liked st; w_now := w_now st; w_idx := S (w_idx st); w_updates := S (w_updates st); w_owned := w_owned st |} r
+                            else inl "a stored value was updated to something other than the documented result"
+                | None => inl (if (String.eqb ty "Add" || String.eqb ty "Remove") && match w_owns st with Some true => false | _ => true end
+                               then "a target collection this server does not own was modified" else "an update the documented effect does not include")
+                end
+            | _ => inl "?"
+            end
+          else if String.eqb op "Delete" then inl "a stored value was deleted"
+          else eff_walk ty a raw st r
+      | _ => eff_walk ty a raw st r
+      end
+  end.
+Definition c16_type (ty : string) : bool := mem ty ["Update"; "Delete"; "Add"; "Remove"; "Like"; "Block"].
+Definition effects_verdict (u : run) : nat * string :=
+  if negb (String.eqb (u_entry u) "postoutbox" || String.eqb (u_entry u) "send") then (0, "") else
+  match posted_value u with
+  | Some v =>
+      let ty := type_name v in
+      if negb (c16_type ty && c_social (u_cfg u) && negb (mem ty (c_soc_other (u_cfg u)))) then (0, "") else
+      let raw := match r_body (u_req u) with BJson j => if String.eqb (u_entry u) "send" then v else j | BNotJson => v end in
+      let accepted := String.eqb (u_result u) "ok" && (String.eqb (u_entry u) "send" || existsb (fun p => match fst p with EWriteHeader n => Nat.eqb n 201 | _ => false end) (u_trace u)) in
+      let missing := object_required v || ((String.eqb ty "Add" || String.eqb ty "Remove") && target_required v) in
+      if missing then
+        if existsb (fun p => match fst p with EDb op _ => is_mod op | EBatchDeliver _ _ => true | _ => false end) (u_trace u) then (1, "an activity lacking its object / target changed or sent something")
+        else if accepted then (1, "an activity lacking its object / target was accepted")
+        else if String.eqb (u_entry u) "postoutbox" && String.eqb (u_result u) "ok" && existsb (fun p => match fst p with EApp n _ => String.eqb n "SocialCallbacks" | _ => false end) (u_trace u)
+                && negb (existsb (fun p => match fst p with EWriteHeader n => Nat.eqb n 400 | _ => false end) (u_trace u)) then (1, "an activity lacking its object / target was not answered 400")
+        else (0, "")
+      else
+      match eff_walk ty v raw {| w_owns := None; w_get := None; w_liked := None; w_now := 0%Z; w_idx := 0; w_updates := 0; w_owned := 0 |} (u_trace u) with
+      | inl msg => (1, msg)
+      | inr st =>
+          if String.eqb ty "Block" && existsb (fun p => match fst p with EBatchDeliver _ _ => true | _ => false end) (u_trace u) then (1, "a Block was delivered") else
+          if accepted then
+            let want := if String.eqb ty "Update" || String.eqb ty "Delete" then length (match ids_of "object" v with Ok l => l | _ => [] end)
+                        else if String.eqb ty "Add" || String.eqb ty "Remove" then w_owned st
+                        else if String.eqb ty "Like" then 1 else 0 in
+            if Nat.eqb (w_updates st) want then (0, "") else (1, "accepted, but not every named value / owned target was updated")
+          else (0, "")
+      end
+  | None => (0, "")
+  end.
+Definition effects_bad := Eval vm_compute in
+  filter (fun x => Nat.eqb (fst (snd x)) 1) (map (fun p => (fst p, effects_verdict (snd p))) (combine (seq 0 (length observed)) observed)).
+Definition effects_stats := Eval vm_compute in
+  (length (filter (fun u => match posted_value u with Some v => c16_type (type_name v) | None => false end) observed),
+   length (filter (fun u => existsb (fun p => match fst p with EDb op _ => String.eqb op "Update" | _ => false end) (u_trace u)) observed)).
 Definition n_observed := Eval vm_compute in length observed.
 Print replay_bad.
 Print lock_bad.
@@ -206,4 +298,6 @@ Print create_bad.
 Print order_bad.
 Print history_bad.
 Print order_stats.
+Print effects_bad.
+Print effects_stats.
 Print n_observed.
